@@ -145,3 +145,36 @@ Fixpoint mismatches_from (i : N) (cs : list case) : list N :=
   end.
 
 Definition mismatches (cs : list case) : list N := mismatches_from 0 cs.
+
+(** ------------------------------------------------------------------ *)
+(** The configuration path: sleep.NewManager builds the calculator from the
+    sleep configuration: cycle = poll interval; window length and clock
+    tolerance from the configuration when positive, else the defaults (30 s,
+    5 s); the epoch is the INSTANT the RFC3339 string denotes (time.Parse keeps
+    the instant whatever zone offset it is written with), the Unix epoch when
+    the string is empty or does not parse.  Then NewWindowCalculator's
+    normalisation. *)
+Definition default_window : Z := 30000000000.
+Definition default_tolerance : Z := 5000000000.
+
+Definition manager_config (poll wl tl epoch_instant : Z) : config :=
+  normalize (mkcfg poll (if 0 <? wl then wl else default_window) (if 0 <? tl then tl else default_tolerance) epoch_instant).
+
+(** what the Manager reported (GetNextWindowInfo) at instant [g_t];
+    [g_epoch] is the instant the configured string denotes *)
+Record mgrcase := mkmgr {
+  g_hi : N; g_lo : N; g_epoch : Z; g_poll : Z; g_wl : Z; g_tol : Z; g_t : Z;
+  og_start : Z; og_end : Z; og_safe_start : Z; og_safe_end : Z; og_mid : Z; og_until : Z; og_active : bool }.
+
+Definition mgrcase_ok (k : mgrcase) : bool :=
+  let c := manager_config (g_poll k) (g_wl k) (g_tol k) (g_epoch k) in
+  let i := window_info c (g_hi k) (g_lo k) (g_t k) in
+  (i_start i =? og_start k) && (i_end i =? og_end k) &&
+  (i_safe_start i =? og_safe_start k) && (i_safe_end i =? og_safe_end k) &&
+  (i_mid i =? og_mid k) && (i_until i =? og_until k) && Bool.eqb (i_active i) (og_active k).
+
+Fixpoint mgr_mismatches_from (i : N) (cs : list mgrcase) : list N :=
+  match cs with
+  | [] => []
+  | c :: cs' => if mgrcase_ok c then mgr_mismatches_from (i + 1) cs' else i :: mgr_mismatches_from (i + 1) cs'
+  end.
